@@ -515,8 +515,8 @@ class IntegratorLearner(BaseLearner):
         points = ival.points()
 
         if (
-            points[1] - points[0] < points[0] * coeff.min_sep
-            or points[-1] - points[-2] < points[-2] * coeff.min_sep
+            points[1] - points[0] < abs(points[0]) * coeff.min_sep
+            or points[-1] - points[-2] < abs(points[-2]) * coeff.min_sep
         ):
             self.ivals.remove(ival)
         elif ival.depth == 3 or force_split:
